@@ -27,6 +27,7 @@ type Result struct {
 	Steps      int             `json:"steps"`
 	SimNS      int64           `json:"sim_ns"`
 	Class      string          `json:"class,omitempty"` // coarse behaviour class of the run
+	Classes    []string        `json:"classes,omitempty"` // further behaviour classes covered by the run
 	Nontrivial bool            `json:"nontrivial"`
 	Stats      map[string]int  `json:"stats,omitempty"`
 	Log        []string        `json:"log,omitempty"`
